@@ -1224,15 +1224,16 @@ func main() {
 
 	go watchdog()
 
-	w := openTrace(*out)
+	// all trace files exist from the start (the watchdog may end the run in any phase)
+	w, mw, rw, pw := openTrace(*out), openTrace(*maps), openTrace(*races), openTrace(*pressure)
+	curW.Store(w)
 	nev := routeTrace(w, rng, 0, *nrand, "default")
 	for _, n := range counts {
 		nev += routeTrace(w, rng, n, *nrand, "prime")
 	}
 	ncold := routeRaces(w, rng, *nroutecold)
-	w.Close()
 
-	mw := openTrace(*maps)
+	curW.Store(mw)
 	small := []int{1, 2, 3, 4, 7, 64, 73, 211, 1000}
 	// capacities of the LRU facades: out of reach (most histories), and the edges of the range: 0, 1,
 	// around the shard count, the top of int64 (the histories then use only as many keys as surely fit)
@@ -1297,15 +1298,15 @@ func main() {
 			}
 		}
 	}
-	mw.Close()
 
-	rw := openTrace(*races)
+	curW.Store(rw)
 	ran, kept := runRaces(rw, rng, *nrace, *nracekeep)
-	rw.Close()
-	pw := openTrace(*pressure)
+	curW.Store(pw)
 	runPressure(pw, rng, *npress)
-	pw.Close()
 	_ = nev
+	for _, x := range allW {
+		x.Close()
+	}
 	fmt.Printf("pressure_events=%d ", pw.N())
 	fmt.Printf("cold_route_events=%d ", ncold)
 	fmt.Printf("route_events=%d map_events=%d race_events=%d race_rounds=%d race_rounds_with_overlap=%d\n",
